@@ -95,3 +95,50 @@ Fixpoint c06_lincomb (al be : Z) (x y : list Z) : list Z :=
 Definition c06_with_data (a : c06_arr) (d : list Z) : c06_arr :=
   {| c06_shape := c06_shape a; c06_dims := c06_dims a; c06_name := c06_name a; c06_grid := c06_grid a;
      c06_data := d |}.
+
+(* ---- more of the specification side (round 4) ---- *)
+
+(* the area of the faces selected by a 0/1 mask (what integrating boolean data must give) *)
+Fixpoint c06_mask_sum (areas mask : list Z) : Z :=
+  match areas, mask with
+  | a :: areas', m :: mask' => (if m =? 0 then 0 else a) + c06_mask_sum areas' mask'
+  | _, _ => 0
+  end.
+
+(* ---- the grid object as integrate sees it: what is stored on it never enters the integral ---- *)
+Record c06_gstate := {
+  c06_stored_areas : option (list Z);     (* _ds["face_areas"]: derived, supplied by the source, or assigned *)
+  c06_stored_jac : option (list Z)        (* _face_jacobian *)
+}.
+
+Inductive c06_gop :=
+| C06_op_integrate (rule order : Z) (a : c06_arr)
+| C06_op_compute (rule order : Z)                (* compute_face_areas(rule, order): stores nothing *)
+| C06_op_read_face_areas                         (* caches the default computation when nothing is stored *)
+| C06_op_assign_face_areas (l : list Z).         (* grid.face_areas = ... *)
+
+Section GridMachine.
+  (* compute_face_areas(rule, order) on the grid's current coordinates (C05's model), as scaled integers *)
+  Variable areas_of : Z -> Z -> list Z.
+  Variable g : c06_counts.
+  Variables default_rule default_order : Z.
+
+  (* integrate(rule, order) on a grid in state s: the weights are computed afresh *)
+  Definition c06_integrate_grid (s : c06_gstate) (rule order : Z) (a : c06_arr) : c06_result :=
+    c06_integrate_cur g (areas_of rule order) a.
+
+  Definition c06_gstep (s : c06_gstate) (o : c06_gop) : c06_gstate :=
+    match o with
+    | C06_op_integrate _ _ _ => s
+    | C06_op_compute _ _ => s
+    | C06_op_read_face_areas =>
+        match c06_stored_areas s with
+        | Some _ => s
+        | None => {| c06_stored_areas := Some (areas_of default_rule default_order);
+                     c06_stored_jac := c06_stored_jac s |}
+        end
+    | C06_op_assign_face_areas l => {| c06_stored_areas := Some l; c06_stored_jac := c06_stored_jac s |}
+    end.
+
+  Definition c06_grun (s : c06_gstate) (ops : list c06_gop) : c06_gstate := fold_left c06_gstep ops s.
+End GridMachine.
